@@ -356,7 +356,7 @@ func init() {
 			Name: "variation/" + name,
 			N:    qt(8000, 800000),
 			Run: func(c *mon.Ctx, i int) {
-				prof := patchProfiles[i%5]
+				prof := append(patchProfiles[:5:5], gen.PNumbers)[i%6]
 				var a, b any
 				switch {
 				case kind == 8:
